@@ -1440,3 +1440,278 @@ Section MonitorsEntry0.
     exfalso. unfold run in ER. rewrite run_entry0 in ER. exact (parse_xml_response_not_panic _ _ _ _ _ _ ER).
   Qed.
 End MonitorsEntry0.
+
+(* ---------- the artifact entry point: exact success conditions, upgrade, monitors ---------- *)
+
+Definition ar_checks_ok (ck : checks) (cfg : spcfg) (rid : string) (now : Z) (aresp : response) : bool :=
+  (negb (ck_reqid ck) || seqb (r_irt aresp) rid) &&
+  (negb (ck_time ck) || time_ok_r cfg now aresp) &&
+  (negb (ck_addr ck) || (match r_issuer aresp with Some i => seqb i (idp_entity cfg) | None => true end
+                         && seqb (r_status aresp) STATUS_SUCCESS)).
+
+Definition ar_need (cfg : spcfg) (ar : node) : option bool :=
+  match validate_signature cfg ar with SValid => Some false | SAbsent => Some true | SInvalid => None end.
+
+Theorem parse_artifact_response_ok ck cfg ids rid now cur ar a :
+  parse_artifact_response ck cfg ids rid now cur ar = Ok a <->
+  exists aresp need r,
+    un_response_named "ArtifactResponse" ar = Ok aresp /\
+    is_ok (map_o un_response (filter (named NS_P "Response") (node_kids ar))) = true /\
+    ar_checks_ok ck cfg rid now aresp = true /\
+    ar_need cfg ar = Some need /\
+    one_child (named NS_P "Response") (node_kids ar) = Ok r /\
+    parse_response ck cfg ids now need cur r = Ok a.
+Proof.
+  unfold parse_artifact_response, ar_checks_ok, ar_need, time_ok_r. split.
+  - intros H. bind_as H aresp Hua. bind_as H u1 G1. bind_as H u2 Hb4. bind_as H u3 Hb5. bind_as H u4 Hb6. bind_as H u5 Hb7.
+    bind_as H need Hb8. bind_as H r Hb9.
+    apply guard_inv in Hb4, Hb5, Hb6, Hb7. rewrite negb_ltb in Hb5.
+    exists aresp, need, r. repeat split; auto.
+    + rewrite G1. reflexivity.
+    + rewrite Hb4, Hb5. destruct (ck_addr ck); simpl in *; [rewrite Hb6, Hb7|]; reflexivity.
+    + destruct (validate_signature cfg ar); inversion Hb8; reflexivity.
+  - intros [aresp [need [r [Hua [G1 [Hc [Hn [Hr Hp]]]]]]]]. rewrite Hua. cbn [bind].
+    destruct (map_o un_response _) as [l| |]; try discriminate. cbn [bind].
+    apply andb_prop in Hc. destruct Hc as [Hc H3]. apply andb_prop in Hc. destruct Hc as [H1 H2].
+    rewrite negb_ltb, H1, H2. cbn [guard bind].
+    assert (negb (ck_addr ck) || match r_issuer aresp with Some i => seqb i (idp_entity cfg) | None => true end = true /\
+            negb (ck_addr ck) || seqb (r_status aresp) STATUS_SUCCESS = true) as [H4 H5].
+    { destruct (ck_addr ck); simpl in *; [apply andb_prop in H3; exact H3|split; reflexivity]. }
+    rewrite H4, H5. cbn [guard bind].
+    destruct (validate_signature cfg ar); inversion Hn; subst; cbn [bind]; rewrite Hr; cbn [bind]; exact Hp.
+Qed.
+
+Lemma ar_checks_mono ck' ck cfg rid now aresp :
+  weaker ck' ck -> ar_checks_ok ck cfg rid now aresp = true -> ar_checks_ok ck' cfg rid now aresp = true.
+Proof.
+  intros [Ht [Ha Hr]]. unfold ar_checks_ok. revert Ht Ha Hr.
+  generalize (seqb (r_irt aresp) rid) (time_ok_r cfg now aresp)
+             (match r_issuer aresp with Some i => seqb i (idp_entity cfg) | None => true end && seqb (r_status aresp) STATUS_SUCCESS).
+  intros R T A.
+  destruct (ck_time ck'), (ck_addr ck'), (ck_reqid ck'), (ck_time ck), (ck_addr ck), (ck_reqid ck), T, A, R;
+    simpl; intros Ht Ha Hr; auto;
+    try (specialize (Ht eq_refl); discriminate); try (specialize (Ha eq_refl); discriminate);
+    try (specialize (Hr eq_refl); discriminate).
+Qed.
+
+Theorem parse_artifact_response_upgrade ck' cfg ids rid now cur ar a aresp need r resp :
+  weaker ck' all_checks ->
+  parse_artifact_response ck' cfg ids rid now cur ar = Ok a ->
+  un_response_named "ArtifactResponse" ar = Ok aresp ->
+  ar_need cfg ar = Some need ->
+  one_child (named NS_P "Response") (node_kids ar) = Ok r ->
+  un_response r = Ok resp ->
+  ar_checks_ok all_checks cfg rid now aresp = true ->
+  is_ok (response_checks all_checks cfg ids now (need && negb (sigv_eqb (resp_sig cfg need r) SAbsent)) cur resp) = true ->
+  is_ok (validate_assertion all_checks cfg ids now a) = true ->
+  parse_artifact_response all_checks cfg ids rid now cur ar = Ok a.
+Proof.
+  intros W H Hua Hn Hr Hu Hc Hrc Hv.
+  apply parse_artifact_response_ok in H. destruct H as [aresp' [need' [r' [Hua' [G1 [_ [Hn' [Hr' Hp]]]]]]]].
+  rewrite Hn in Hn'. inversion Hn'; subst need'. rewrite Hr in Hr'. inversion Hr'; subst r'.
+  apply parse_artifact_response_ok. exists aresp, need, r. repeat split; auto.
+  eapply parse_response_upgrade; eauto.
+Qed.
+
+Lemma parse_xml_artifact_ok ck cfg ids rid now cur env a :
+  parse_xml_artifact_response_ck ck cfg ids rid now cur (DRoot env) = Ok a <->
+  named NS_SOAP "Envelope" env = true /\
+  exists body ar, one_child (named NS_SOAP "Body") (node_kids env) = Ok body /\
+                  one_child (named NS_P "ArtifactResponse") (node_kids body) = Ok ar /\
+                  parse_artifact_response ck cfg ids rid now cur ar = Ok a.
+Proof.
+  unfold parse_xml_artifact_response_ck. split.
+  - intros H. bind_as H u G. bind_as H body Hb. bind_as H ar Ha. apply guard_inv in G. eauto 6.
+  - intros [G [body [ar [Hb [Ha H]]]]]. rewrite G. cbn [guard bind]. rewrite Hb. cbn [bind]. rewrite Ha. exact H.
+Qed.
+
+Section MonitorsEntry1.
+  Variable c : spcase.
+  Hypothesis E1 : pc_entry c <> 0.
+  Hypothesis Hagree : spcase_agree c = true.
+
+  Let Hobs : pc_obs c = obs_of (run c).
+  Proof. symmetry. apply obs_eqb_eq. exact Hagree. Qed.
+
+  Let E1b : (pc_entry c =? 0) = false.
+  Proof. apply Z.eqb_neq. exact E1. Qed.
+
+  Lemma run_entry1 ck : run_ck ck c =
+    parse_xml_artifact_response_ck ck (pc_cfg c) (pc_ids c) (pc_rid c) (pc_now c) (pc_cur c) (pc_doc c).
+  Proof. unfold run_ck. rewrite E1b. reflexivity. Qed.
+
+  (* the pieces of an accepted (under any check set) artifact case *)
+  Lemma artifact_pieces ck a :
+    run_ck ck c = Ok a ->
+    exists env ar aresp need r resp,
+      pc_doc c = DRoot env /\ case_ar c = Some ar /\ case_resp c = Some r /\
+      un_response_named "ArtifactResponse" ar = Ok aresp /\ un_response r = Ok resp /\
+      ar_need (pc_cfg c) ar = Some need /\
+      one_child (named NS_P "Response") (node_kids ar) = Ok r /\
+      ar_checks_ok ck (pc_cfg c) (pc_rid c) (pc_now c) aresp = true /\
+      parse_artifact_response ck (pc_cfg c) (pc_ids c) (pc_rid c) (pc_now c) (pc_cur c) ar = Ok a /\
+      parse_response ck (pc_cfg c) (pc_ids c) (pc_now c) need (pc_cur c) r = Ok a.
+  Proof.
+    intros H. rewrite run_entry1 in H. destruct (pc_doc c) as [| |env] eqn:Hd; try discriminate.
+    pose proof H as H0. apply parse_xml_artifact_ok in H. destruct H as [G [body [ar [Hb [Ha Hp]]]]].
+    pose proof Hp as Hp0. apply parse_artifact_response_ok in Hp.
+    destruct Hp as [aresp [need [r [Hua [G1 [Hc [Hn [Hr Hpr]]]]]]]].
+    pose proof Hpr as Hpr0. apply parse_response_ok in Hpr. destruct Hpr as [resp [Hu _]].
+    exists env, ar, aresp, need, r, resp.
+    assert (CA : case_ar c = Some ar). { unfold case_ar. rewrite E1b, Hd, Hb, Ha. reflexivity. }
+    repeat split; auto.
+    unfold case_resp. rewrite E1b, CA, Hr. reflexivity.
+  Qed.
+
+  Lemma need_sig1 ar need : case_ar c = Some ar -> ar_need (pc_cfg c) ar = Some need -> case_need_sig c = need.
+  Proof.
+    intros CA Hn. unfold case_need_sig. rewrite CA. unfold ar_need in Hn.
+    destruct (validate_signature (pc_cfg c) ar); inversion Hn; reflexivity.
+  Qed.
+
+  Lemma has_sig1 ar need r :
+    case_ar c = Some ar -> case_resp c = Some r -> ar_need (pc_cfg c) ar = Some need ->
+    case_has_sig c = need && negb (sigv_eqb (resp_sig (pc_cfg c) need r) SAbsent).
+  Proof.
+    intros CA CR Hn. unfold case_has_sig. rewrite CR, (need_sig1 ar need CA Hn). unfold resp_sig.
+    destruct need; reflexivity.
+  Qed.
+
+  Lemma family_monitor1 ckw okr okar oka :
+    weaker ckw all_checks ->
+    (forall aresp resp a hs, ar_checks_ok all_checks (pc_cfg c) (pc_rid c) (pc_now c) aresp = true ->
+        is_ok (response_checks all_checks (pc_cfg c) (pc_ids c) (pc_now c) hs (pc_cur c) resp) = true ->
+        is_ok (validate_assertion all_checks (pc_cfg c) (pc_ids c) (pc_now c) a) = true ->
+        case_has_sig c = hs -> okr c resp = true /\ okar c aresp = true /\ oka c a = true) ->
+    (forall aresp resp a hs, ar_checks_ok ckw (pc_cfg c) (pc_rid c) (pc_now c) aresp = true ->
+        is_ok (response_checks ckw (pc_cfg c) (pc_ids c) (pc_now c) hs (pc_cur c) resp) = true ->
+        is_ok (validate_assertion ckw (pc_cfg c) (pc_ids c) (pc_now c) a) = true ->
+        case_has_sig c = hs -> okr c resp = true -> okar c aresp = true -> oka c a = true ->
+        ar_checks_ok all_checks (pc_cfg c) (pc_rid c) (pc_now c) aresp = true /\
+        is_ok (response_checks all_checks (pc_cfg c) (pc_ids c) (pc_now c) hs (pc_cur c) resp) = true /\
+        is_ok (validate_assertion all_checks (pc_cfg c) (pc_ids c) (pc_now c) a) = true) ->
+    family_spec ckw okr okar oka c = true.
+  Proof.
+    intros W Hsound Hcomplete. unfold family_spec. rewrite Hobs.
+    destruct (run c) as [a|code|] eqn:ER; cbn [obs_of].
+    - destruct (artifact_pieces all_checks a ER) as [env [ar [aresp [need [r [resp H]]]]]].
+      destruct H as [Hd [CA [CR [Hua [Hu [Hn [Hr [Hc [Hpa Hpr]]]]]]]]].
+      rewrite CA, CR. cbn [un_named]. rewrite Hua, (un_response_named_of _ _ Hu).
+      pose proof Hpr as Hs. apply parse_response_sound in Hs.
+      destruct Hs as [resp' [e [Hu' [Hin [Hue [Hrc [Hv _]]]]]]]. rewrite Hu in Hu'. inversion Hu'; subst resp'.
+      destruct (Hsound aresp resp a _ Hc Hrc Hv (has_sig1 ar need r CA CR Hn)) as [O1 [O2 O3]].
+      rewrite O1, O2. cbn [andb]. apply existsb_exists. exists a. split; [|exact O3].
+      eapply returned_contains; eauto.
+    - destruct (run_ck ckw c) as [a'| |] eqn:EW; try reflexivity.
+      destruct (artifact_pieces ckw a' EW) as [env [ar [aresp [need [r [resp H]]]]]].
+      destruct H as [Hd [CA [CR [Hua [Hu [Hn [Hr [Hc [Hpa Hpr]]]]]]]]].
+      rewrite CA, CR. cbn [un_named]. rewrite Hua, (un_response_named_of _ _ Hu).
+      pose proof Hpr as Hs. apply parse_response_sound in Hs.
+      destruct Hs as [resp' [e [Hu' [Hin [Hue [Hrc [Hv _]]]]]]]. rewrite Hu in Hu'. inversion Hu'; subst resp'.
+      destruct (okr c resp) eqn:O1; [|reflexivity]. destruct (okar c aresp) eqn:O2; [|reflexivity].
+      destruct (oka c a') eqn:O3; [|reflexivity]. exfalso.
+      destruct (Hcomplete aresp resp a' _ Hc Hrc Hv (has_sig1 ar need r CA CR Hn) O1 O2 O3) as [K1 [K2 K3]].
+      assert (run c = Ok a').
+      { unfold run. rewrite run_entry1, Hd. apply parse_xml_artifact_ok.
+        rewrite run_entry1, Hd in EW. apply parse_xml_artifact_ok in EW. destruct EW as [G [body' [ar' [Hb [Ha Hp]]]]].
+        split; [exact G|]. exists body', ar'. repeat split; auto.
+        assert (ar' = ar) as ->. { unfold case_ar in CA. rewrite E1b, Hd, Hb, Ha in CA. inversion CA. reflexivity. }
+        eapply parse_artifact_response_upgrade; eauto. }
+      congruence.
+    - exfalso. unfold run in ER. rewrite run_entry1 in ER. exact (parse_xml_artifact_response_not_panic _ _ _ _ _ _ _ ER).
+  Qed.
+End MonitorsEntry1.
+
+Section MonitorsEntry1Families.
+  Variable c : spcase.
+  Hypothesis E1 : pc_entry c <> 0.
+  Hypothesis Hagree : spcase_agree c = true.
+
+  Opaque addr_ok_r addr_ok_a time_ok_a time_ok_r reqid_ok_r reqid_ok_a structure_ok.
+
+  Ltac split_hyps :=
+    repeat match goal with
+           | H : _ && _ = true |- _ => apply andb_prop in H; destruct H
+           end.
+
+  Lemma okar_addr aresp :
+    addr_ok_r (pc_cfg c) false "" {| r_dest := ""; r_irt := r_irt aresp; r_issue := r_issue aresp;
+                                     r_issuer := r_issuer aresp; r_status := r_status aresp |} =
+    match r_issuer aresp with Some i => seqb i (idp_entity (pc_cfg c)) | None => true end && seqb (r_status aresp) STATUS_SUCCESS.
+  Proof. Transparent addr_ok_r. unfold addr_ok_r. cbn. reflexivity. Opaque addr_ok_r. Qed.
+
+  Theorem c02_monitor1 : c02_spec c = true.
+  Proof.
+    unfold c02_spec. apply (family_monitor1 c E1 Hagree).
+    - repeat split; auto.
+    - intros aresp resp a hs Hc Hrc Hv _. unfold ar_checks_ok in Hc.
+      rewrite response_checks_char in Hrc. rewrite validate_assertion_char in Hv.
+      cbn [all_checks ck_time ck_addr ck_reqid negb orb] in *. split_hyps. auto.
+    - intros aresp resp a hs Hc Hrc Hv _ O1 O2 O3. unfold ar_checks_ok in *.
+      rewrite response_checks_char in *. rewrite validate_assertion_char in *.
+      cbn [no_time all_checks ck_time ck_addr ck_reqid negb orb andb] in *. split_hyps.
+      repeat split; repeat (apply andb_true_intro; split); auto.
+  Qed.
+
+  Theorem c03_monitor1 : c03_spec c = true.
+  Proof.
+    unfold c03_spec. apply (family_monitor1 c E1 Hagree).
+    - repeat split; auto.
+    - intros aresp resp a hs Hc Hrc Hv Hhs. unfold ar_checks_ok in Hc.
+      rewrite response_checks_char in Hrc. rewrite validate_assertion_char in Hv. rewrite okar_addr, Hhs.
+      cbn [all_checks ck_time ck_addr ck_reqid negb orb] in *. split_hyps. auto.
+    - intros aresp resp a hs Hc Hrc Hv Hhs O1 O2 O3. rewrite okar_addr in O2. rewrite Hhs in O1. unfold ar_checks_ok in *.
+      rewrite response_checks_char in *. rewrite validate_assertion_char in *.
+      cbn [no_addr all_checks ck_time ck_addr ck_reqid negb orb andb] in *. split_hyps.
+      repeat split; repeat (apply andb_true_intro; split); auto.
+  Qed.
+
+  Theorem c04_monitor1 : c04_spec c = true.
+  Proof.
+    unfold c04_spec. apply (family_monitor1 c E1 Hagree).
+    - repeat split; auto.
+    - intros aresp resp a hs Hc Hrc Hv _. unfold ar_checks_ok in Hc.
+      rewrite response_checks_char in Hrc. rewrite validate_assertion_char in Hv.
+      cbn [all_checks ck_time ck_addr ck_reqid negb orb] in *. split_hyps. auto.
+    - intros aresp resp a hs Hc Hrc Hv _ O1 O2 O3. unfold ar_checks_ok in *.
+      rewrite response_checks_char in *. rewrite validate_assertion_char in *.
+      cbn [no_reqid all_checks ck_time ck_addr ck_reqid negb orb andb] in *. split_hyps.
+      repeat split; repeat (apply andb_true_intro; split); auto.
+  Qed.
+
+  Transparent addr_ok_r addr_ok_a time_ok_a time_ok_r reqid_ok_r reqid_ok_a structure_ok.
+
+  Theorem c09_monitor1 : c09_spec c = true.
+  Proof.
+    assert (Hobs : pc_obs c = obs_of (run c)) by (symmetry; apply obs_eqb_eq; exact Hagree).
+    unfold c09_spec. rewrite Hobs. destruct (run c) eqn:ER; try reflexivity.
+    exfalso. unfold run in ER. rewrite (run_entry1 c E1) in ER. exact (parse_xml_artifact_response_not_panic _ _ _ _ _ _ _ ER).
+  Qed.
+
+  Theorem c01_monitor1 : c01_spec c = true.
+  Proof.
+    assert (Hobs : pc_obs c = obs_of (run c)) by (symmetry; apply obs_eqb_eq; exact Hagree).
+    unfold c01_spec. rewrite Hobs. destruct (run c) as [a|code|] eqn:ER; cbn [obs_of]; try reflexivity.
+    destruct (artifact_pieces c E1 all_checks a ER) as [env [ar [aresp [need [r [resp H]]]]]].
+    destruct H as [Hd [CA [CR [Hua [Hu [Hn [Hr [Hc [Hpa Hpr]]]]]]]]].
+    rewrite CR, CA. apply parse_response_sound in Hpr.
+    destruct Hpr as [resp' [e [Hu' [Hin [Hue [_ [_ [Hns Hs]]]]]]]].
+    apply existsb_exists. exists e. split; [exact Hin|]. rewrite Hue. unfold matches_obs. rewrite obs_eqb_refl. cbn [andb].
+    unfold ar_need in Hn. destruct (validate_signature (pc_cfg c) ar) eqn:EA; inversion Hn; subst need.
+    - unfold resp_sig in *. destruct (validate_signature (pc_cfg c) r) eqn:ES.
+      + rewrite (validate_signature_covered _ _ (Hs eq_refl)). rewrite !orb_true_r. reflexivity.
+      + rewrite (validate_signature_covered _ _ ES). reflexivity.
+      + congruence.
+    - rewrite (validate_signature_covered _ _ EA). rewrite orb_true_r. reflexivity.
+  Qed.
+End MonitorsEntry1Families.
+
+(* both entry points *)
+Theorem monitors_hold_of_model c :
+  spcase_agree c = true ->
+  c01_spec c = true /\ c02_spec c = true /\ c03_spec c = true /\ c04_spec c = true /\ c09_spec c = true.
+Proof.
+  intros H. destruct (Z.eq_dec (pc_entry c) 0) as [E|E].
+  - repeat split; [apply c01_monitor|apply c02_monitor|apply c03_monitor|apply c04_monitor|apply c09_monitor]; assumption.
+  - repeat split; [apply c01_monitor1|apply c02_monitor1|apply c03_monitor1|apply c04_monitor1|apply c09_monitor1]; assumption.
+Qed.
